@@ -35,7 +35,7 @@ BOUNDED = [
         "script": "replay/c04_native.py",
         "args_quick": [],
         "args_thorough": ["--thorough"],
-        "bound": "all chains of 2-3 statements (thorough: 2-4) over 5 per-step column patterns (same names, renamed, expression, dropped column, SELECT *) x {no provider, provider} x {ansi, non-validating} against a composition oracle; 6 extra scripts (diamond, unqualified column defined by an earlier target, re-creation over a catalog table, self-referencing insert, wildcard over wildcard)",
+        "bound": "all chains of 2-3 statements (thorough: 2-4) over 5 per-step column patterns (same names, renamed, expression, dropped column, SELECT *) x {no provider, provider} x {ansi, non-validating} against a composition oracle; 6 extra scripts (diamond, unqualified column defined by an earlier target, re-creation over a catalog table, self-referencing insert, wildcard over wildcard); + one unqualified column of an earlier target feeding two outputs of a join (with / without provider)",
     }
 ]
 LEVEL_TEXT = (
